@@ -27,8 +27,7 @@ RULE = ("case = binding list 0..200 of values of all 13 types (Integer32 / unsig
         "non-short length form, or >= 3 bindings; distinct = SHA-1 of canonical JSON case")
 ASSUMPTIONS = [
     "well-formed = valid BER with definite lengths and canonical value contents (device-style unsigned contents are C17)",
-    "authenticated SNMPv3 messages are only generated with minimal outer lengths (non-minimal forms inside the encrypted "
-    "scoped PDU); acceptance of authentic minimal messages is C10",
+    "authenticated SNMPv3 messages carry generated length forms as well: the reference agent signs exactly the bytes it sends",
     "a single get / getnext of an exception marker raises NoSuchOID (C04) instead of returning the marker",
     "first OID arcs x690 documents as unsupported (2.40 and above) are outside the domain",
 ]
@@ -193,18 +192,28 @@ def run_case(case) -> Result:
         if flags == 0:
             usm = f.usm(agent.engine_id, agent.boots, agent.engine_time(), user.name, b"", b"")
             return f.v3(req["msg_id"], 65507, 0, usm, scoped)
-        # authenticated: outer message minimal, inner (encrypted) scoped PDU with generated forms
+        # authenticated: EVERY TLV of the message in a generated length form; the digest is computed by the agent over
+        # exactly the bytes it sends (12 zero octets in place of the digest), as RFC 3414 6.3.1 prescribes
         salt = b""
         wire_body = scoped
         if flags & 2:
             salt = b"C06salt!"
             enc, _dec = vagent.PRIV_IMPL[user.priv]
-            wire_body = vber.enc_octets(enc(agent.priv_key(user), salt, scoped))
-        else:
-            wire_body = vber.enc_scoped_pdu(req["ctx_engine"], req["ctx_name"],
-                                            vber.enc_pdu(vber.PDU_RESPONSE, pdu["rid"], 0, case.get("ei", 0), vbs))
-        return agent.build_v3(req["msg_id"], flags, user.name, wire_body, auth_key=agent.auth_key(user),
-                              algo=user.algo, salt=salt)
+            wire_body = None
+            cipher = enc(agent.priv_key(user), salt, scoped)
+        start = f.i
+
+        def build(digest):
+            f.i = start
+            body = f.tlv(vber.T_OCTETS, cipher) if flags & 2 else scoped_again()
+            usm = f.usm(agent.engine_id, agent.boots, agent.engine_time(), user.name, digest, salt)
+            return f.v3(req["msg_id"], 65507, flags, usm, body)
+
+        def scoped_again():
+            return f.scoped(req["ctx_engine"], req["ctx_name"], f.pdu(vber.PDU_RESPONSE, pdu["rid"], 0, case.get("ei", 0), vbs))
+
+        zeroed = build(b"\x00" * 12)
+        return build(vagent.hmac96(user.algo, agent.auth_key(user), zeroed))
 
     agent, client = vworld.make_world(proto, {}, request_cap=4)
     agent.respond_hook = hook
